@@ -257,5 +257,8 @@ PROP = Prop(
     probes=[probes],
     trusted_base=["Lean 4.33 kernel; axioms propext, Classical.choice, Quot.sound only",
                   "PyNum/den (see C02); harness serialisation"],
+    level_text='Lean theorems (unbounded): substitution lemma den(subst s e) = den(e) in the environment updated with the values of the replacements, for the full expression language (errors included); untouched trees come back unchanged with the identity flag off; replacements are inserted as they are. Tied to SubstitutionMapper / CachedSubstitutionMapper by correspondence on result trees and object identity, for name, variable, subscript and look-up keys.',
+    level_note='Trusted: Lean kernel; PyNum/den; harness. eval_subst is stated for name-keyed maps whose replacements evaluate, and excludes CSE nodes whose substituted child is zero (IdentityMapper collapses them to 0 - known finding); subscript/look-up keys and the memoizing mapper are covered by correspondence and the value oracle only.',
+    technique='Lean 4 substitution lemma by mutual structural induction + differential correspondence of substM against the real mappers',
     design_ref="DESIGN.md §4 C08",
 )
